@@ -680,12 +680,16 @@ fn main() {
     // tokenisation alone, and batched with a short and with another long text (padding)
     {
         let lens = tu_verif::enumerate::threshold_lengths(run.pick(8, 10));
-        run.bounds.insert("long_phase".into(), json!(format!("symbol counts {lens:?} x 6 repeated patterns x every config x ignore_special_tokens; each alone, with a one-symbol text and with the next pattern")));
+        run.bounds.insert("long_phase".into(), json!(format!("symbol counts {lens:?} x (6 repeated patterns, one grapheme cluster of that many code points alone and inside text) x every config x ignore_special_tokens; each alone, with a one-symbol text and with the next pattern")));
         for (k, n) in lens.iter().enumerate() {
             if !run.unit(units + k as u64) {
                 continue;
             }
             let texts: Vec<String> = [&["a"][..], &["a", "ä", "😀"][..], &["<pad>", "a", "\u{301}"][..], &["\r", "\n", "a"][..], &["\u{915}", "\u{93f}", "a"][..], &["\u{0}", "a", "\u{10ffff}"][..]].iter().map(|p| tu_verif::enumerate::repeat_symbols(p, *n)).collect();
+            // (and one grapheme cluster of n code points, alone and inside text)
+            let marks = format!("a{}", "\u{301}".repeat(*n - 1));
+            let mut texts = texts;
+            texts.extend([marks.clone(), format!("xy{marks}za")]);
             for sub in &subs {
                 for ign in [false, true] {
                     let items: Vec<Item> = texts.iter().filter_map(|s| {
